@@ -6,11 +6,14 @@ import (
 	"sort"
 	"strconv"
 	"sync/atomic"
+	"time"
 
 	"github.com/olive-io/bpmn/schema"
 	bpmn "github.com/olive-io/bpmn/v2"
+	"github.com/olive-io/bpmn/v2/pkg/clock"
 	"github.com/olive-io/bpmn/v2/pkg/event"
 	"github.com/olive-io/bpmn/v2/pkg/id"
+	"github.com/olive-io/bpmn/v2/pkg/timer"
 	"github.com/olive-io/bpmn/v2/pkg/tracing"
 	"github.com/olive-io/bpmn/v2/verifrt"
 )
@@ -52,6 +55,7 @@ type Run struct {
 	Cancel context.CancelFunc
 	P      *bpmn.Process
 	Sub    chan tracing.ITrace
+	Clock  *clock.Mock
 
 	NTraces    int
 	Stream     []string // compact rendering of every trace received, in order
@@ -73,7 +77,8 @@ type Run struct {
 	InstIDs    []string
 
 	StartReturned bool
-	AfterStart    func() // called by the starter goroutine once StartAll has returned
+	OnTrace       func(seq int, t tracing.ITrace) // called by the reader after recording each trace
+	AfterStart    func()                          // called by the starter goroutine once StartAll has returned
 	StartErr      error
 	Waits         []*Wait
 
@@ -97,6 +102,7 @@ type OpenOpts struct {
 	UseEngine  bool
 	ParentCtx  context.Context
 	DefaultGen bool // use the engine's default (sno) generator
+	Timer      bool // wire pkg/timer's event definition builder with a mock clock (Run.Clock)
 }
 
 // Open creates the instance inside the current execution and subscribes the driver.
@@ -108,6 +114,14 @@ func Open(g *Graph, defs *schema.Definitions, o OpenOpts) *Run {
 		parent = context.Background()
 	}
 	r.Ctx, r.Cancel = context.WithCancel(parent)
+	if o.Timer {
+		r.Clock = clock.NewMockAt(time.Date(2024, 1, 1, 0, 0, 0, 0, time.UTC))
+		r.Ctx = clock.ToContext(r.Ctx, r.Clock)
+		fan := event.NewFanOut()
+		tr := tracing.NewTracer(r.Ctx)
+		b := event.DefinitionInstanceBuildingChain(timer.EventDefinitionInstanceBuilder(r.Ctx, fan, tr), event.WrappingDefinitionInstanceBuilder)
+		o.Extra = append(o.Extra, bpmn.WithTracer(tr), bpmn.WithProcessEventDefinitionInstanceBuilder(b), bpmn.WithEventEgress(fan), bpmn.WithEventIngress(fan))
+	}
 	opts := []bpmn.Option{bpmn.WithContext(r.Ctx)}
 	if !o.DefaultGen {
 		gen := o.Gen
@@ -158,6 +172,9 @@ func nodeID(n schema.FlowNodeInterface) string {
 func (r *Run) onTrace(raw tracing.ITrace) {
 	seq := r.NTraces
 	r.NTraces++
+	if r.OnTrace != nil {
+		defer r.OnTrace(seq, raw)
+	}
 	if it, ok := raw.(bpmn.InstanceTrace); ok {
 		_ = it
 	}
